@@ -35,7 +35,10 @@
 (*   new_account   a new account (acct = -1: the wallet chooses the number)*)
 (*   mark_used     the key at idx of a chain received funds                *)
 (*   reopen        the wallet object is closed and opened again            *)
-(*   export        the account public key is exported (public_master)      *)
+(*   export        the public key of account acct is exported              *)
+(*                 (public_master): the key of THAT account                *)
+(*   set_default   account acct becomes the one requests without an        *)
+(*                 account number refer to (the binding resolves them)     *)
 (* Allowed(cfg, s, a, out) names the clause of the property the result     *)
 (* violates ("ok": none); After(cfg, s, a, out) is the successor state.    *)
 (* The model (MC_WalletKeys) and the trace validation (WalletKeysEval) use *)
@@ -134,7 +137,7 @@ MustRefuse(cfg, s, a) == a.op \in {"new_keys", "get_keys", "key_for_path", "new_
 \* requests a wallet may decline although they have an answer
 MayRefuse(cfg, s, a) ==
     \/ a.op = "new_account" /\ a.acct >= 0 /\ Acct(a.net, a.wt, a.acct) \in s.accts          \* the account exists
-    \/ a.op \in {"mark_used", "export"}
+    \/ a.op \in {"mark_used", "export", "set_default"}
 
 Distinct(q) == \A i, j \in 1..Len(q) : i # j => q[i] # q[j]
 Contiguous(q) == \A i \in 2..Len(q) : q[i].idx = q[i - 1].idx + 1
@@ -164,7 +167,11 @@ Allowed(cfg, s, a, out) ==
            ELSE IF Acct(a.net, a.wt, out[1].acct) \in s.accts THEN "account-created-twice"
            ELSE "ok"
       [] a.op = "mark_used" -> IF Pos(c, a.idx) \in s.keys THEN "ok" ELSE "unknown-key-marked-used"
-      [] a.op \in {"reopen", "export"} -> "ok"
+      [] a.op = "export" ->         \* out: the position (net, wt, account of the exported key, 0, 0)
+           IF Len(out) # 1 \/ out[1].net # a.net \/ out[1].wt # a.wt \/ out[1].acct # a.acct THEN "account-key-of-another-account-exported"
+           ELSE "ok"
+      [] a.op = "reopen" -> "ok"
+      [] a.op = "set_default" -> IF Acct(a.net, a.wt, a.acct) \in s.accts THEN "ok" ELSE "unknown-account-made-default"
       [] OTHER -> "unknown-action"
 
 After(cfg, s, a, out) ==
@@ -177,6 +184,7 @@ After(cfg, s, a, out) ==
            [s EXCEPT !.accts = @ \cup {x},
                      !.keys = @ \cup {Pos(Chain(x.net, x.wt, x.acct, 0), 0), Pos(Chain(x.net, x.wt, x.acct, 1), 0)}]
       [] a.op = "mark_used" -> [s EXCEPT !.used = @ \cup {Pos(c, a.idx)}]
+      [] a.op = "export" -> [s EXCEPT !.accts = @ \cup {Acct(a.net, a.wt, a.acct)}]       \* the account key exists from now on
       [] OTHER -> s
 
 
